@@ -156,6 +156,13 @@ pub fn run(opts: &HashMap<String, String>) -> i32 {
             let v = variant(&base, Policy::Fixed(1), "fixed1", 1, 0, seed);
             run_traced(rid + 1, &input, &v);
             runs += 2;
+            if parser == "aag" || parser == "aig" {
+                // the whole-file API on the same boundary document
+                let mut w = base.clone();
+                w.parser = format!("{}_parse", parser);
+                run_traced(rid + 2, &input, &w);
+                runs += 1;
+            }
             continue;
         }
         if mode == "corrupt" {
